@@ -82,6 +82,11 @@ def run(tier, seed):
     for pool in (False, True):
         cfg = gen.std_cfg(ns=2, usepool=pool, ports=[3001, 3002] if pool else [])
         corecheck.validate(chk, cfg, gen.STD_TREE, [s for _, s in fam], label="cuts" + ("+pool" if pool else ""))
+    # sessions the server ends itself because no passive port can be opened (every port of the pool busy, for good or for a while)
+    pv = [s for _, s in fam if "PASV" in repr(s) or "EPSV" in repr(s)]
+    for plan in ({"3001": "inuse", "3002": "inuse"}, {"3001": ["inuse", "inuse", "ok"], "3002": ["inuse", "ok", "inuse"]}):
+        corecheck.validate(chk, gen.std_cfg(ns=2, usepool=True, ports=[3001, 3002], port_plan=plan), gen.STD_TREE, pv if tier != "quick" else pv[::4],
+                           label="cuts+busy-pool:%d" % len(str(plan)))
     # general sessions of several accounts at once on the same files, interleaved by the seeded scheduler with backend calls held at
     # random, any of them cut (closed, reset) anywhere
     ch = [gen.chaos(rng, rng.choice([2, 3])) for _ in range(150 if tier == "quick" else 3000)]
